@@ -163,6 +163,52 @@ theorem C11_started (a : App.App) (cfgs : List BatchConfig) (i : Nat) (c : Batch
   · rename_i h; simpa using h
   · split at hnow <;> simp [hnot] at hnow
 
+theorem uniqueAddrs_nodup : ∀ (l : List Addr), uniqueAddrs l = true → l.Nodup
+  | [], _ => List.nodup_nil
+  | a :: rest, h => by
+    unfold uniqueAddrs at h
+    simp only [Bool.and_eq_true, Bool.not_eq_true'] at h
+    rw [List.nodup_cons]
+    refine ⟨?_, uniqueAddrs_nodup rest h.2⟩
+    intro hmem
+    have : rest.contains a = true := List.contains_iff_mem.2 hmem
+    rw [h.1] at this
+    cases this
+
+/-- **A voted-in configuration lists every keyper once.**  Whatever configuration a vote can name has pairwise
+    distinct keypers (so has every configuration `C11_accept` speaks of). -/
+theorem C11_voted_keypers_distinct (act thr idx : Nat) (ks : List Raw) (bc : BatchConfig)
+    (h : batchConfigFromMessage act thr idx ks = some bc) : bc.keypers.Nodup := by
+  unfold batchConfigFromMessage at h
+  cases hp : parseAddresses ks with
+  | none => simp [hp] at h
+  | some l =>
+    simp only [hp] at h
+    by_cases hu : uniqueAddrs l = true
+    · simp only [hu, if_true, Option.some.injEq] at h
+      subst h
+      exact uniqueAddrs_nodup l hu
+    · simp [hu] at h
+
+/-- **Started on a quorum of distinct keypers.**  When the preceding configuration lists every keyper once (every
+    voted-in one does), the block-seen reports that mark a configuration started come from at least
+    `threshold(preceding)` different keypers of it, each having reported a block at or past the activation
+    block. -/
+theorem C11_started_distinct (a : App.App) (cfgs : List BatchConfig) (i : Nat) (c : BatchConfig)
+    (hnot : c.started = false) (hnow : (endBlockStep a cfgs i c).1.started = true)
+    (hnd : (cfgs.getD (i - 1) default).keypers.Nodup) :
+    ∃ S : List Addr, S.Nodup ∧ (cfgs.getD (i - 1) default).threshold ≤ S.length ∧
+      ∀ k ∈ S, k ∈ (cfgs.getD (i - 1) default).keypers ∧ ∃ b, a.blocksSeen.get? k = some b ∧ c.activation ≤ b := by
+  have h := C11_started a cfgs i c hnot hnow
+  unfold seenVotes at h
+  refine ⟨_, hnd.filter _, h, ?_⟩
+  intro k hk
+  rw [List.mem_filter] at hk
+  refine ⟨hk.1, ?_⟩
+  cases hb : a.blocksSeen.get? k with
+  | none => rw [hb] at hk; simp at hk
+  | some b => rw [hb] at hk; exact ⟨b, rfl, by simpa using hk.2⟩
+
 /-! non-vacuity: a concrete reachable state and an accepting vote -/
 def g3 : Genesis :=
   { chainId := "c0", keypers := [1, 2, 3], threshold := 2, initialEon := 0,
